@@ -3,7 +3,7 @@ from dvlib import cluster
 
 ID = 'C01'
 PROPS_FILE = 'theories/props/Properties_C01.v'
-CONE = ['theories/Election.v', 'theories/proofs/C02.v', 'theories/proofs/C01.v']
+CONE = ['theories/Election.v', 'theories/AbstractRaft.v', 'theories/proofs/C02.v', 'theories/proofs/C01.v', 'theories/proofs/AR_election.v']
 ORACLES = [cluster.election_safety]
 
 def check(run):
